@@ -3,7 +3,7 @@ CONFIG = {
     "audit": "BsVerif/Audit/C15.lean",
     "bsv_cmd": "c15",
     "technique": "Lean 4 proofs about an executable model of read_memory_by_pid / DAP write_bytes / RegisterMap / disassembly masking / parse_set_value (all addresses, lengths, data, memories) + differential correspondence on a live debuggee with guard holes + /proc/<pid>/mem, raw PTRACE_GETREGS and the program's own output as oracles",
-    "level_text": "Exactness of memory reads (C15_read_spec/_exact/_success_iff/_total: a read succeeds iff the requested bytes are mapped and returns exactly them), of the DAP byte-granular write loop (C15_write_exact, _no_panic, _success_iff, _fail_confined, _write_then_read), of single-word pokes (C15_poke_exact), of the register table round trip (C15_reg_roundtrip, C15_reg_write_visible; tables re-extracted from register.rs on every run), of breakpoint masking in the disassembler (C15_disasm_masks_patches, C15_disasm_total) and of integer setVariable parsing (C15_setvar_int_roundtrip, C15_setvar_range, C15_setvar_accepted_exact) is proved in Lean for every memory, address, length and data, at full strength. Three parts of the property were FALSE of the original code (tail of a mapping unreadable, out-of-range setVariable truncated, breakpoint at a function's end address panicking the disassembler); they have been repaired in the repository (fix commits 37b4832, 5730161, 7d3e3cf), the model follows the repaired code, and the former witnesses are replayed on the real code by corpus/C15 on every run, a regression being a VIOLATION. The model is tied to the real Debugger on every run: boundary-exhaustive and seeded (offset, length, data) reads, word writes and DAP writes around word ends, page seams and unmapped holes of a live debuggee are executed on both and compared line by line.",
+    "level_text": "Exactness of memory reads (C15_read_spec/_exact/_success_iff/_total: a read succeeds iff the requested bytes are mapped and returns exactly them), of the DAP byte-granular write loop (C15_write_exact, _no_panic, _success_iff, _fail_confined, _write_then_read), of single-word pokes (C15_poke_exact), of the register table round trip (C15_reg_roundtrip, C15_reg_write_visible; tables re-extracted from register.rs on every run), of breakpoint masking in the disassembler (C15_disasm_masks_patches, C15_disasm_total) and of integer setVariable parsing (C15_setvar_int_roundtrip, C15_setvar_range, C15_setvar_accepted_exact) is proved in Lean for every memory, address, length and data, at full strength. Three parts of the property were FALSE of the original code (tail of a mapping unreadable, out-of-range setVariable truncated, breakpoint at a function's end address panicking the disassembler); they have been repaired in the repository (fix commits 829a669, dc03bfb, e37d02d), the model follows the repaired code, and the former witnesses are replayed on the real code by corpus/C15 on every run, a regression being a VIOLATION. The model is tied to the real Debugger on every run: boundary-exhaustive and seeded (offset, length, data) reads, word writes and DAP writes around word ends, page seams and unmapped holes of a live debuggee are executed on both and compared line by line.",
     "level_note": "Trusted: Lean kernel + 3 standard axioms; kernel model of PTRACE_PEEKDATA/POKEDATA (word access succeeds iff all 8 bytes are mapped; a failing POKE leaves the bytes before the first unmapped page written; FOLL_FORCE ignores page protection) — sampled by the correspondence run; page-granular mappings; model<->code tie is sampling (generator distribution in evidence). The DAP JSON layer above write_bytes/parse_set_value (setVariable/setExpression/readMemory/writeMemory request handlers, variable lookup, serialize_dap_value for composites) is not exercised (see uncovered).",
     "runs": {"quick": [{"n": 1500}], "thorough": [{"n": 30000, "timeout": 6000}]},
     "trivial_answers": ["ok", "-", "bad-op", "", "err"],
